@@ -255,7 +255,7 @@ var subC16Soak = &fw.Sub{Name: "c16.soak", New: func() fw.Case { return &c16Soak
 		case "diagnostics-distinct":
 			// a compile diagnostic and a run-time error / warning on a line of its own in every call
 			for i := 0; i < c.N; i++ {
-				k := i % 3000
+				k := i % 700
 				p := impl.Parse(strings.Repeat("\n", k) + "print )\n")
 				if want := fmt.Sprintf("line %d:8: error", k+1); p.Err == nil || !strings.HasPrefix(p.Log, want) {
 					return bad(i, "Parse of a faulty source", want, p.Log)
@@ -311,8 +311,10 @@ func c16SoakCases(thorough bool) []*c16Soak {
 			n = 3000
 		case "parse-repeat-wide":
 			n = 6000 // the widest source (thorough: 20000 identifiers)
-		case "parsefile-distinct", "parse-dump-load-exec-distinct", "diagnostics-distinct":
+		case "parsefile-distinct", "parse-dump-load-exec-distinct":
 			n = 20000
+		case "diagnostics-distinct":
+			n = 8000
 		}
 		if thorough {
 			n *= 4
